@@ -120,6 +120,21 @@ var properties = map[string]*Property{
 		OutsideClaim: []string{"plans beyond 2 blocks x 2 sequences x 2 actions; name/description strings other than a valid one, the empty string and whitespace",
 			"the execution that follows an accepted Start (C01..C08)"},
 	},
+	"C18": {
+		ID: "C18",
+		Runs: []Run{
+			{Dir: "c18", Pkg: "workflow/utils/clone", Fn: "VerifC18Plan", Needs: []string{"clone of a fresh plan resubmitted", "clone of a plan that has run resubmitted", "keep-state clone compared", "attempts compared"}},
+			{Dir: "c18", Pkg: "workflow/utils/clone", Fn: "VerifC18Parts", Needs: []string{"block cloned", "sequence cloned", "checks cloned", "action cloned"}},
+		},
+		Assumptions: append([]string{
+			"deep.MustCopy (reflection/unsafe) is replaced by the interpreter's deep copy, i.e. its contract; clone.Secure (reflection, property C17) is a no-op: assumed to touch only secure-tagged fields, and the model request/response types have none",
+			"every definition scalar of the plan, its blocks, check groups and of one designated action is a solver variable, as are status and times of plan, blocks, sequences and that action, Reason, SubmitTime and the fields of 0..1 (quick) / 0..2 (thorough) attempts; check groups share one status picked from {NotStarted, Running, Completed, Failed}",
+			"NoAlias walks both object graphs in the interpreter's memory: any shared pointer, slice backing array or map is a violation",
+			"resubmission goes through the real Workstream.Submit with the model registry and vault",
+		}, commonAssumptions...),
+		OutsideClaim: []string{"WithRemoveCompletedSequences (not part of the statement)", "Key fields (not in the statement's list of definition fields; the code does not copy them)",
+			"request/response types other than the model's flat structs (deep copy of arbitrary types is deep.MustCopy's contract)"},
+	},
 }
 
 type eRun struct {
